@@ -602,7 +602,8 @@ def run_params(cfg):
     ob = dis = 0
 
     def body():
-        flags = {k: decide(z3.Bool(k)) for k in ('use_log', 'use_power', 'include_energy', 'kaldi_shift', 'is_real', 'is_analytic', 'is_zero_phase', 'centered')}
+        flags = {k: decide(z3.Bool(k)) for k in ('use_log', 'use_power', 'include_energy', 'kaldi_shift', 'is_real', 'is_analytic', 'is_zero_phase', 'centered', 'padded')}
+        dft = 8 if flags['padded'] else 6        # an unpadded computer has dft_size == frame_length (not a power of two here)
 
         class Bank:
             is_real = flags['is_real']
@@ -618,7 +619,7 @@ def run_params(cfg):
             frame_shift = _frame_shift = 2
             frame_style = _frame_style = 'centered' if flags['centered'] else 'causal'
             _window = np.arange(1., 7.)
-            _dft_size = 8
+            _dft_size = dft
             _log = flags['use_log']
             _power = flags['use_power']
             _include_energy = includes_energy = flags['include_energy']
@@ -636,7 +637,7 @@ def run_params(cfg):
         got = dict(use_log=m.use_log, use_power=m.use_power, include_energy=m.include_energy, kaldi_shift=m.kaldi_shift, is_real=m.is_real,
                    centered=m.centered)
         bad = [k for k in got if bool(got[k]) != flags[k]]
-        if m.frame_length != 6 or m.frame_shift != 2 or m.dft_size != 8 or tuple(m.offsets) != (1, 3):
+        if m.frame_length != 6 or m.frame_shift != 2 or m.dft_size != dft or tuple(m.offsets) != (1, 3):
             bad.append('geometry')
         if [list(map(float, f.detach().real.numpy())) for f in m.filters] != [[0.5, 0.25], [1.0, 0.5, 0.125]]:
             bad.append('filters')
@@ -718,8 +719,9 @@ def replay(w):
         for bank in (GaborFilterBank('mel', num_filts=4, sampling_rate=8000, low_hz=20), TriangularOverlappingFilterBank('mel', num_filts=4, sampling_rate=8000, analytic=True),
                      TriangularOverlappingFilterBank('mel', num_filts=4, sampling_rate=8000)):
             for fl in ({'use_log': True, 'use_power': False}, {'use_log': False, 'use_power': True}):
-                for ie, ks, style in ((True, True, 'centered'), (False, False, 'causal')):
-                    c = STFTFrameComputer(bank, frame_length_ms=8, frame_shift_ms=3, frame_style=style, include_energy=ie, kaldi_shift=ks, window_function='hamming', **fl)
+                for ie, ks, style, pad in ((True, True, 'centered', True), (False, False, 'causal', True), (True, False, 'centered', False), (False, True, 'causal', False)):
+                    c = STFTFrameComputer(bank, frame_length_ms=8.5, frame_shift_ms=3, frame_style=style, include_energy=ie, kaldi_shift=ks, window_function='hamming',
+                                          pad_to_nearest_power_of_two=pad, **fl)
                     t = PyTorchSTFTFrameComputer.from_stft_frame_computer(c, filter_type=torch.cdouble, window_type=torch.double)
                     xs = rng.randn(300)
                     with torch.no_grad():
@@ -727,7 +729,7 @@ def replay(w):
                     b = c.compute_full(xs)
                     d = float(np.abs(a - b).max()) if a.shape == b.shape else float('inf')
                     if d > worst[0]:
-                        worst = (d, '%s %s energy=%s kaldi=%s %s' % (type(bank).__name__, fl, ie, ks, style))
+                        worst = (d, '%s %s energy=%s kaldi=%s %s padded=%s (frame length %d, DFT size %d)' % (type(bank).__name__, fl, ie, ks, style, pad, c.frame_length, c._dft_size))
         return {'reproduced': worst[0] > 1e-6, 'detail': 'max |torch module - numpy computer| = %.3g (%s)' % worst}
     try:
         if k == 'walk':
